@@ -81,7 +81,6 @@ var c30IPSetMembers = []string{"10.0.0.1", "10.0.0.2/32", "10.0.0.0/30", "10.0.1
 var c30IPPortMembers = []string{"10.0.0.1,tcp:80", "10.0.0.2,tcp:80", "10.0.0.2,udp:53", "10.0.1.1,tcp:8080", "192.168.0.1,sctp:9", "10.0.0.3,udp:80", "fd00::1,tcp:80"}
 
 var c30Ports = []int32{1, 79, 80, 81, 443, 1023, 1024, 8080, 65534, 65535}
-var c30PortsCapped = []int32{1, 79, 80, 81, 443, 1023, 1024, 8080, 59999, 60000}
 
 type c30ProtoChoice struct {
 	p     *proto.Protocol
@@ -418,9 +417,8 @@ type c30Gen struct {
 	usedPort map[int32]bool
 	nRule    int
 	// known findings whose signature is excluded from generation
-	knownIPPort, knownPanic, knownEmpty bool
-	nSentinel                           int
-	excluded                            map[string]bool
+	knownIPPort bool
+	excluded    map[string]bool
 }
 
 func (g *c30Gen) subset(label string, voc []string, max int) []string {
@@ -467,51 +465,14 @@ func (g *c30Gen) bigNets(label string) []string {
 	return out
 }
 
-// portFixups applies the generation-side exclusions of the two known combinePorts findings.
-//
-//   - combineports-empty-intersection-unrestricted: two port lists (same side) of a pass rule and of a
-//     rule in a later list with an empty intersection.  Excluded by giving every port list (every
-//     chunk of a long one) the common port 7.
-//   - combineports-panic-shared-max-port: the intersection contains the highest port of the two lists
-//     (both lists reach the same maximum).  Excluded by capping generated ports at 60000 and giving
-//     every port list its own unique maximum above that.
-func (g *c30Gen) portFixups(out []*proto.PortRange) []*proto.PortRange {
-	if g.knownEmpty {
-		out = append(out, &proto.PortRange{First: 7, Last: 7})
-		if len(out) > 4000 {
-			out = append([]*proto.PortRange{{First: 7, Last: 7}}, out...)
-		}
-		g.usedPort[7] = true
-		g.excluded[c30SigEmpty] = true
-	}
-	if g.knownPanic {
-		g.nSentinel++
-		p := int32(60000 + g.nSentinel)
-		out = append(out, &proto.PortRange{First: p, Last: p})
-		g.excluded[c30SigPanic] = true
-	}
-	return out
-}
-
-func (g *c30Gen) portVocab() []int32 {
-	if g.knownPanic {
-		return c30PortsCapped
-	}
-	return c30Ports
-}
-
 func (g *c30Gen) ports(label string) []*proto.PortRange {
-	return g.portFixups(g.rawPorts(label))
-}
-
-func (g *c30Gen) rawPorts(label string) []*proto.PortRange {
 	n := rapid.IntRange(1, 3).Draw(g.t, label+"N")
 	var out []*proto.PortRange
 	for i := 0; i < n; i++ {
-		a := rapid.SampledFrom(g.portVocab()).Draw(g.t, label+"First")
+		a := rapid.SampledFrom(c30Ports).Draw(g.t, label+"First")
 		b := a
 		if rapid.IntRange(0, 2).Draw(g.t, label+"Range") == 0 {
-			b = rapid.SampledFrom(g.portVocab()).Draw(g.t, label+"Last")
+			b = rapid.SampledFrom(c30Ports).Draw(g.t, label+"Last")
 			if b < a {
 				a, b = b, a
 			}
@@ -530,12 +491,12 @@ func (g *c30Gen) bigPorts(label string) []*proto.PortRange {
 		out = append(out, &proto.PortRange{First: p, Last: p})
 	}
 	g.usedPort[10000], g.usedPort[10001], g.usedPort[10000+2*3999], g.usedPort[10000+2*4000] = true, true, true, true
-	for _, extra := range g.rawPorts(label + "BigExtra") {
+	for _, extra := range g.ports(label + "BigExtra") {
 		pos := rapid.SampledFrom([]int{0, 3999, 4000, len(out)}).Draw(g.t, label+"BigPos")
 		out = append(out[:pos:pos], append([]*proto.PortRange{extra}, out[pos:]...)...)
 	}
 	g.classes["split-ports"] = true
-	return g.portFixups(out)
+	return out
 }
 
 func (g *c30Gen) rule(inbound bool, allowBig bool) *proto.Rule {
@@ -1074,11 +1035,7 @@ func c30Check(t c30TB, sc *c30Scenario, smallLimit func(n int) int) c30Outcome {
 
 // ---------------------------------------------------------------------------------------
 
-const (
-	c30SigIPPort = "ipportset-with-other-criteria"
-	c30SigPanic  = "combineports-panic-shared-max-port"
-	c30SigEmpty  = "combineports-empty-intersection-unrestricted"
-)
+const c30SigIPPort = "ipportset-with-other-criteria"
 
 func TestVerifC30WindowsFlattening(t *testing.T) {
 	ev.Quiet()
@@ -1090,10 +1047,10 @@ func TestVerifC30WindowsFlattening(t *testing.T) {
 		"each IP-set field holds at most one id (as the calc graph emits); ports only with tcp/udp/sctp; ip-port sets only in egress rules (validator)",
 		"rewritePriorities' grouped branch (normally reached only with >=64000 rules) is exercised by calling it with a small limit on a copy of the final rule list")
 	defer rec.Write()
-	knownIPPort, knownPanic, knownEmpty := ev.Known(c30SigIPPort), ev.Known(c30SigPanic), ev.Known(c30SigEmpty)
+	knownIPPort := ev.Known(c30SigIPPort)
 	rapid.Check(t, func(t *rapid.T) {
 		g := &c30Gen{t: t, sets: map[string][]string{}, ipp: map[string][]string{}, classes: map[string]bool{}, usedPort: map[int32]bool{},
-			knownIPPort: knownIPPort, knownPanic: knownPanic, knownEmpty: knownEmpty, excluded: map[string]bool{}}
+			knownIPPort: knownIPPort, excluded: map[string]bool{}}
 		v := rapid.IntRange(0, 999).Draw(t, "bigCase")
 		g.big = v >= 300 && v < 400
 		sc := &c30Scenario{sets: g.sets, ipp: g.ipp}
@@ -1159,41 +1116,6 @@ func TestVerifC30WindowsFlattening(t *testing.T) {
 			}
 			sc.profs = append(sc.profs, pd)
 		}
-		// Known combinePorts findings: an ip-port-set rule's ports come from the set's members and cannot
-		// carry the fix-ups of portFixups, so where such rules exist no egress pass rule matches on remote
-		// (destination) ports.
-		if knownPanic || knownEmpty {
-			anyIPP := false
-			for _, pd := range append(append([]*c30PolDef{}, sc.pols...), sc.profs...) {
-				for _, r := range pd.out {
-					if len(r.DstIpPortSetIds) > 0 {
-						anyIPP = true
-					}
-				}
-			}
-			if anyIPP {
-				for _, pd := range append(append([]*c30PolDef{}, sc.pols...), sc.profs...) {
-					for _, r := range pd.out {
-						if a := strings.ToLower(r.Action); a == "pass" || a == "next-tier" {
-							if len(r.DstIpPortSetIds) > 0 {
-								r.Action = "allow"
-							} else if len(r.DstPorts) > 0 {
-								r.DstPorts = nil
-							} else {
-								continue
-							}
-							if knownPanic {
-								g.excluded[c30SigPanic] = true
-							}
-							if knownEmpty {
-								g.excluded[c30SigEmpty] = true
-							}
-						}
-					}
-				}
-			}
-		}
-
 		// Tier layout: each policy goes to one tier; a tier lists a policy for ingress, egress or both.
 		tierNames := [][]string{{"default"}, {"tier-a"}, {"tier-a", "default"}, {"default", "tier-b"}, {"tier-a", "tier-b"}, {"tier-a", "default"},
 			{"tier-a", "default", "tier-b"}, {"tier-a", "tier-b", "default"}, {"default", "tier-a", "tier-b"}}[rapid.IntRange(0, 8).Draw(t, "tierLayout")]
@@ -1297,8 +1219,10 @@ func TestVerifC30WindowsFlattening(t *testing.T) {
 }
 
 // ---------------------------------------------------------------------------------------
-// Regression entries for findings on the unchanged tree (run by the driver as confirm tests; their
-// names do not match the unit's run pattern).  Each FAILS while the finding reproduces.
+// Regression entries for findings.  TestVerifC30WindowsFlatteningFixed* are part of the unit's run
+// pattern: the defects they pin were fixed in /repo (34281f3) and must stay fixed.
+// TestVerifC30Known* is the confirm test of an open finding: it does not match the run pattern and
+// FAILS while the finding reproduces.
 
 func c30FixedScenario(tierA, def []*proto.Rule, ipp map[string][]string, ports []int) *c30Scenario {
 	a := &c30PolDef{id: &proto.PolicyID{Name: "a", Kind: "GlobalNetworkPolicy"}, out: tierA}
@@ -1319,7 +1243,7 @@ var c30TCP = &proto.Protocol{NumberOrName: &proto.Protocol_Name{Name: "tcp"}}
 var c30UDP = &proto.Protocol{NumberOrName: &proto.Protocol_Name{Name: "udp"}}
 
 // Egress: tier-a passes TCP to port 80 to the next tier, the default tier allows TCP to port 80.
-func TestVerifC30KnownCombinePortsPanic(t *testing.T) {
+func TestVerifC30WindowsFlatteningFixedCombinePortsSharedMax(t *testing.T) {
 	ev.Quiet()
 	sc := c30FixedScenario(
 		[]*proto.Rule{{RuleId: "a1", Action: "pass", Protocol: c30TCP, DstPorts: []*proto.PortRange{{First: 80, Last: 80}}}},
@@ -1329,7 +1253,7 @@ func TestVerifC30KnownCombinePortsPanic(t *testing.T) {
 }
 
 // Egress: tier-a passes TCP to port 80, the default tier allows TCP to port 443: nothing else may be allowed.
-func TestVerifC30KnownCombinePortsEmpty(t *testing.T) {
+func TestVerifC30WindowsFlatteningFixedCombinePortsEmptyIntersection(t *testing.T) {
 	ev.Quiet()
 	sc := c30FixedScenario(
 		[]*proto.Rule{{RuleId: "a1", Action: "pass", Protocol: c30TCP, DstPorts: []*proto.PortRange{{First: 80, Last: 80}}}},
